@@ -7,6 +7,7 @@ import MC.Spec.Tts
 import MC.Model.Intent
 import MC.Model.Highlight
 import MC.Spec.BrailleFinal
+import MC.Model.Numbers
 open Lean
 
 namespace MC.Driver
@@ -197,7 +198,22 @@ def handleBrailleFinal (op : String) (req : Json) : Option Json :=
     some <| okJ <| toJson <| ofCps (MC.BrailleFinal.finalPhase (getNat req "code") (fun _ => cps (getStr req "pref")) (cps (getStr req "s")))
   | _ => none
 
-def handlers : List (String → Json → Option Json) := [handleVariant, handlePreproc, handlePrefs, handleNav, handleTts, handleIntent, handleHighlight, handleBrailleFinal]
+/-- C16 ops -/
+def handleNumbers (op : String) (req : Json) : Option Json :=
+  let S : MC.Numbers.Seps := { block := cps (getStr req "block"), dec := cps (getStr req "decimal") }
+  match op with
+  | "numpat" =>
+    let s := cps (getStr req "text")
+    some <| okJ <| Json.arr #[toJson (MC.Numbers.hasAny S.dec s), toJson (MC.Numbers.hasAny S.block s), toJson (MC.Numbers.digitOnly S s),
+      toJson (MC.Numbers.blockPattern 3 S s), toJson (MC.Numbers.blockPattern 5 S s), toJson (MC.Numbers.hex4 (s.length + 1) s), toJson (MC.Numbers.block1 s)]
+  | "merge_row" =>
+    let toks : List MC.Numbers.Tok := (arrOf req "tokens").toList.map fun j =>
+      let a := j.getArr?.toOption.getD #[]
+      ⟨((a[0]?.getD Json.null).getNat?).toOption.getD 3, cps (((a[1]?.getD Json.null).getStr?).toOption.getD "")⟩
+    some <| okJ <| Json.arr <| ((MC.Numbers.mergeRow S toks).map fun t => Json.arr #[toJson t.kind, toJson (ofCps t.text)]).toArray
+  | _ => none
+
+def handlers : List (String → Json → Option Json) := [handleVariant, handlePreproc, handlePrefs, handleNav, handleTts, handleIntent, handleHighlight, handleBrailleFinal, handleNumbers]
 
 def handle (req : Json) : Json :=
   let op := getStr req "op"
